@@ -231,6 +231,9 @@ func (t *TSA) RoundTrip(req *http.Request) (*http.Response, error) {
 	switch out.Kind {
 	case "wrong-nonce":
 		info.Nonce = new(big.Int).Add(treq.Nonce, big.NewInt(1))
+	case "no-nonce":
+		// the (optional) nonce field is left out although the request had one
+		info.Nonce = nil
 	case "wrong-imprint":
 		hm := append([]byte(nil), treq.MessageImprint.HashedMessage...)
 		hm[0] ^= 0x01
